@@ -83,6 +83,8 @@ pub struct Machine {
     pub wide_rel: bool,
     /// addresses whose execution is logged as an Exec event (sorted)
     pub pc_marks: Vec<u16>,
+    /// opcodes whose execution is logged as an Exec event with val = opcode (register transfers for C18)
+    pub watch_ops: Vec<u8>,
     cur_pc: u16,
     decode: Vec<Option<(&'static str, Mode, u8, bool)>>,
 }
@@ -129,6 +131,7 @@ impl Machine {
             max_events: 200_000,
             wide_rel: false,
             pc_marks: vec![],
+            watch_ops: vec![],
             cur_pc: 0,
             decode,
         }
@@ -294,6 +297,10 @@ impl Machine {
             self.log(AccKind::Exec, pc, 0);
         }
         let opc = self.fetch();
+        if !self.watch_ops.is_empty() && self.watch_ops.contains(&opc) {
+            let pc = self.cur_pc;
+            self.log(AccKind::Exec, pc, opc);
+        }
         let (mn, mode, base, pagex) = match self.decode[opc as usize] {
             Some(d) => d,
             None => return Err(format!("undefined opcode ${:02x} at ${:04x}", opc, self.cur_pc)),
